@@ -34,7 +34,8 @@ def item():
     derive = st.sampled_from([{"derive": "update_link", "link": "https://other.example/x"}, {"derive": "update_link", "link": None}, {"derive": "without_color"}, {"derive": "copy"}])
     plus = st.one_of(st.none(), st.none(), st.none(), negative, st.sampled_from(GS.PALETTE), GS.style_spec(max_attrs=3), derive, derive)
     seg = st.builds(lambda t, s, p: {"t": t, "s": s, "plus": p}, seg_text(), st.one_of(st.none(), GS.style_spec(), GS.style_spec(), st.sampled_from(GS.PALETTE)), plus)
-    pr = st.builds(lambda segs, route: ["print", segs, route], st.lists(seg, min_size=1, max_size=6), st.sampled_from(["raw", "raw", "text", "print_style"]))
+    pr = st.builds(lambda segs, route, outer: ["print", segs, route] if not route.endswith("outer") else ["print", segs, route, outer], st.lists(seg, min_size=1, max_size=6),
+                   st.sampled_from(["raw", "raw", "text", "print_style", "lazy_outer", "text_outer"]), st.sampled_from(GS.PALETTE + [{"attrs": {"bold": True, "italic": True}, "color": None, "bgcolor": None, "link": None}]))
     ctl = st.sampled_from(CONTROLS).map(lambda k: ["ctl", k])
     return st.one_of(pr, pr, pr, ctl)
 
@@ -54,6 +55,20 @@ class Raw:
 
     def __rich_console__(self, console, options):
         yield from self.segs
+
+
+class Lazy:
+    """Builds the style of every segment while it is rendered (no other reference keeps the styles alive); unstyled new lines in between."""
+
+    def __init__(self, items):
+        self.items = items  # (text, style spec or None)
+
+    def __rich_console__(self, console, options):
+        from rich.segment import Segment
+
+        for text, sp in self.items:
+            yield Segment(text, GS.build_style(sp) if sp else None)
+            yield Segment("\n")
 
 
 class Stream(Part):
@@ -179,6 +194,23 @@ class Stream(Part):
                 elif route == "raw":
                     sut(con.print, Raw([Segment(t, s) for t, s, _ in segs]), end="")
                     styled = [(t, sp) for t, _, sp in segs]
+                elif route == "lazy_outer":
+                    outer = it[3]
+                    sut(con.print, Lazy([(t, sp) for t, _, sp in segs]), end="", style=GS.build_style(outer))
+                    styled = []
+                    for t, _, sp in segs:
+                        styled.append((t, GS.merge(outer, sp) if sp else outer))
+                        styled.append(("\n", outer))
+                    ctx.cls("styles-built-while-rendering")
+                elif route == "text_outer":
+                    outer = it[3]
+                    # the text may have a base style that only switches attributes off; pieces styled the same way overlap it (base + span are combined while rendering)
+                    base = [None, {"attrs": {"bold": False}, "color": None, "bgcolor": None, "link": None}, {"attrs": {"italic": False, "underline": False}, "color": None, "bgcolor": None, "link": None}][len(segs) % 3]
+                    neg = {"attrs": {"italic": False}, "color": None, "bgcolor": None, "link": None}
+                    pieces = [(t, s, sp) if (sp is not None or base is None) else (t, GS.build_style(neg), neg) for t, s, sp in segs]
+                    sut(con.print, Text.assemble(*[(t, s) if s is not None else t for t, s, _ in pieces], end="", style=GS.build_style(base) if base else ""), end="", style=GS.build_style(outer))
+                    styled = [(t, GS.merge(outer, base, sp)) for t, _, sp in pieces]
+                    ctx.cls("text-under-an-outer-style")
                 elif route == "text":
                     sut(con.print, Text.assemble(*[(t, s) if s is not None else t for t, s, _ in segs], end=""), end="")
                     styled = [(t, sp) for t, _, sp in segs]
